@@ -622,7 +622,8 @@ class _Discovery(_MessageDB):
 
             return None
 
-        for hdr, task in self.discovery_cmds.items():
+        # a snapshot: a reply handled during one of the sends below may add (or remove) entries
+        for hdr, task in list(self.discovery_cmds.items()):
             dt_now = dt.now()
 
             if (msg := find_latest_msg(hdr, task)) and (
